@@ -6,6 +6,7 @@ CONSTANTS
   AsIsDeviation = FALSE
   EnablePrune = FALSE
   EnableForeign = FALSE
+  SlowThr = 1000000
 SPECIFICATION LiveSpec
 INVARIANTS TypeOK StoreOnHonestChain
 PROPERTY EventuallySynced
